@@ -164,9 +164,40 @@ func main() {
 	repo := flag.String("repo", "", "path of the golang/geo checkout (default $VERIF_REPO or /repo)")
 	out := flag.String("out", "", "output .lean file, or a directory (then ProtocolIR.lean is written inside); default: stdout")
 	facts := flag.String("facts", "", "optional: write a fingerprint of what was extracted (JSON) to this file")
+	fpOut := flag.String("footprint", "", "output file of the footprint analysis (default: FootprintIR.lean next to -out when -out is a directory; \"-\" = stdout)")
+	only := flag.String("only", "", "\"footprint\": skip the protocol IR (used to show what the footprint obligation alone says about a changed tree)")
 	flag.Parse()
+	if *only == "footprint" {
+		if *fpOut == "" && *out != "" {
+			*fpOut = filepath.Join(*out, "FootprintIR.lean")
+		}
+		if *repo == "" {
+			*repo = os.Getenv("VERIF_REPO")
+		}
+		if *repo == "" {
+			*repo = "/repo"
+		}
+		fpText, summary, errs := genFootprint(*repo)
+		if len(errs) > 0 {
+			for _, e := range errs {
+				fmt.Fprintln(os.Stderr, "translator_c14:", e)
+			}
+			os.Exit(1)
+		}
+		if *fpOut == "" || *fpOut == "-" {
+			fmt.Print(fpText)
+		} else if err := os.WriteFile(*fpOut, []byte(fpText), 0o644); err != nil {
+			fmt.Fprintln(os.Stderr, err)
+			os.Exit(1)
+		}
+		fmt.Fprintf(os.Stderr, "translator_c14: %s\n", summary)
+		return
+	}
 	if *out != "" {
 		if st, err := os.Stat(*out); err == nil && st.IsDir() {
+			if *fpOut == "" {
+				*fpOut = filepath.Join(*out, "FootprintIR.lean")
+			}
 			*out = filepath.Join(*out, "ProtocolIR.lean")
 		}
 	}
@@ -236,8 +267,31 @@ func main() {
 		}
 	}
 	fmt.Fprintf(os.Stderr, "translator_c14: protocol-ir sha256=%x\n", sha256.Sum256([]byte(text)))
+	fpSha := "none"
+	if *fpOut != "" {
+		fpText, summary, errs := genFootprint(*repo)
+		if len(errs) > 0 {
+			for _, e := range errs {
+				fmt.Fprintln(os.Stderr, "translator_c14:", e)
+			}
+			os.Exit(1)
+		}
+		if *fpOut == "-" {
+			fmt.Print(fpText)
+		} else {
+			old, _ := os.ReadFile(*fpOut)
+			if string(old) != fpText {
+				if err := os.WriteFile(*fpOut, []byte(fpText), 0o644); err != nil {
+					fmt.Fprintln(os.Stderr, err)
+					os.Exit(1)
+				}
+			}
+		}
+		fpSha = fmt.Sprintf("%x", sha256.Sum256([]byte(fpText)))
+		fmt.Fprintf(os.Stderr, "translator_c14: %s sha256=%s\n", summary, fpSha)
+	}
 	if *facts != "" {
-		js := fmt.Sprintf("{\"translator\":\"translator_c14\",\"protocol_ir_sha256\":\"%x\"}\n", sha256.Sum256([]byte(text)))
+		js := fmt.Sprintf("{\"translator\":\"translator_c14\",\"protocol_ir_sha256\":\"%x\",\"footprint_ir_sha256\":\"%s\"}\n", sha256.Sum256([]byte(text)), fpSha)
 		if err := os.WriteFile(*facts, []byte(js), 0o644); err != nil {
 			fmt.Fprintln(os.Stderr, err)
 			os.Exit(1)
